@@ -243,6 +243,10 @@ mut('fixed-c03-matrix-wide-range', 'C03', 'odl/operator/tensor_ops.py',
     "                    if (out_arr.flags.c_contiguous and\n                            out_arr.dtype == np.result_type(self.matrix.dtype,\n                                                            x.dtype)):\n",
     "                    if out_arr.flags.c_contiguous:\n")
 
+mut('fixed-c17-broadcast-larger', 'C17', 'odl/space/npy_tensors.py',
+    "                    out_space = type(self.space)(res.shape, res.dtype,\n                                                 **spc_kwargs)\n                    out = out_space.element(res)\n\n                return out\n",
+    "                    out_space = type(self.space)(self.shape, res.dtype,\n                                                 **spc_kwargs)\n                    out = out_space.element(res)\n\n                return out\n")
+
 
 def _apply(scratch, m):
     p = os.path.join(scratch, m['file'])
